@@ -113,6 +113,13 @@ func genConfig(t *rapid.T, p *Profile) Config {
 		c.NumCompactors = rapid.IntRange(2, 4).Draw(t, "num_compactors")
 		c.L0Tables = rapid.IntRange(1, 4).Draw(t, "l0_tables_k")
 		c.L0Stall = c.L0Tables + rapid.IntRange(1, 4).Draw(t, "l0_stall_k")
+		if rapid.IntRange(0, 2).Draw(t, "l0_wide") == 0 {
+			// a wide L0: many tables accumulate before L0 is compacted, so that worker 0
+			// finds >=4 idle tables while another worker moves the oldest ones down
+			// (the L0->L0 compaction) and the base level receives several tables at once
+			c.L0Tables = rapid.IntRange(4, 8).Draw(t, "l0_tables_wide")
+			c.L0Stall = c.L0Tables + rapid.IntRange(2, 6).Draw(t, "l0_stall_wide")
+		}
 		c.MemTableSize = int64(rapid.SampledFrom([]int{2 << 10, 3 << 10, 4 << 10, 8 << 10}).Draw(t, "memtable_k"))
 		if c.ValueThreshold > c.MemTableSize*15/100 {
 			c.ValueThreshold = c.MemTableSize * 15 / 100
@@ -136,6 +143,7 @@ func genConfig(t *rapid.T, p *Profile) Config {
 		c.Prefill = rapid.SampledFrom([]int{100, 250, 400, 700, 1200}).Draw(t, "prefill_k")
 		c.PrefillAllKeys = true
 		c.PrefillClustered = rapid.IntRange(0, 2).Draw(t, "prefill_clustered") > 0
+		c.PrefillAgeS = rapid.SampledFrom([]int{0, 11, 11, 4000}).Draw(t, "prefill_age")
 	}
 	return c
 }
